@@ -1,1 +1,29 @@
-(* C07_metrics placeholder *)
+(* C07_metrics.v — metric functions, ndim==1 branch vs batch branch.  PARTIAL: the scalar branches of qdist/qeip/qcip/qad
+   return 0 through an `allclose` shortcut the batch branches lack (known finding); outside the shortcut they agree. *)
+From Coq Require Import Reals List Lra.
+From AhrsLib Require Import Base.
+From AhrsGen Require Import C07gen_R.
+From AhrsProps Require Import C07_tac.
+Import ListNotations.
+Open Scope R_scope.
+
+Ltac twin_shortcut := cbv zeta; repeat (head_dec; try (right; reflexivity)); left; same_val.
+
+Lemma qdist_twin_partial a b c d w x y z :
+  C07_qdist_b1_R a b c d w x y z = C07_qdist_s_R a b c d w x y z \/ C07_qdist_s_R a b c d w x y z = Val [0].
+Proof. unfold C07_qdist_b1_R, C07_qdist_s_R. twin_shortcut. Qed.
+Lemma qeip_twin_partial a b c d w x y z :
+  C07_qeip_b1_R a b c d w x y z = C07_qeip_s_R a b c d w x y z \/ C07_qeip_s_R a b c d w x y z = Val [0].
+Proof. unfold C07_qeip_b1_R, C07_qeip_s_R. twin_shortcut. Qed.
+Lemma qcip_twin_partial a b c d w x y z :
+  C07_qcip_b1_R a b c d w x y z = C07_qcip_s_R a b c d w x y z \/ C07_qcip_s_R a b c d w x y z = Val [0].
+Proof. unfold C07_qcip_b1_R, C07_qcip_s_R. twin_shortcut. Qed.
+(* two-row batch of qeip: row 1 does not depend on row 0 *)
+Lemma qeip_twin2_partial k_a k_b k_c k_d k_w k_x k_y k_z a b c d w x y z :
+  C07_qeip_b2_R k_a k_b k_c k_d k_w k_x k_y k_z a b c d w x y z = C07_qeip_s_R a b c d w x y z
+  \/ C07_qeip_s_R a b c d w x y z = Val [0].
+Proof. unfold C07_qeip_b2_R, C07_qeip_s_R. twin_shortcut. Qed.
+Lemma chordal_twin r00 r01 r02 r10 r11 r12 r20 r21 r22 s00 s01 s02 s10 s11 s12 s20 s21 s22 :
+  C07_chordal_b1_R r00 r01 r02 r10 r11 r12 r20 r21 r22 s00 s01 s02 s10 s11 s12 s20 s21 s22 =
+  C07_chordal_s_R r00 r01 r02 r10 r11 r12 r20 r21 r22 s00 s01 s02 s10 s11 s12 s20 s21 s22.
+Proof. cbv delta [C07_chordal_b1_R C07_chordal_s_R]. cbv beta. reflexivity. Qed.
